@@ -277,14 +277,20 @@ def run_agent_shutdown(params, known):
     idx = -1
     for (contacts, load, early) in configs:
         names = ['X'] + ['P%d' % i for i in range(len(contacts))]
-        orders = [names[k:] + names[:k] for k in range(len(names))] + [list(reversed(names))]
-        for order in orders:
+        orders = [(names[k:] + names[:k], True) for k in range(len(names))] + [(list(reversed(names)), True)]
+        if len(contacts) > 1 and not early:
+            # strict priorities: one peer is slow (it runs only when nobody else has anything to do),
+            # so its acknowledgements and replies come after everything else has settled
+            orders += [([n for n in names if n != slow] + [slow], False) for slow in names[1:]]
+        for (order, rotate) in orders:
             idx += 1
             if idx % parts != part:
                 continue
             k = 0
             while True:
                 case = dict(contacts=contacts, load=list(load), order=order, shutdown_after=k, early=early)
+                if not rotate:
+                    case['schedule'] = 'strict priorities'
                 w = AgentWorld(dict(contacts=contacts))
                 if not early:
                     w.run_policy(order)                 # all sessions established
@@ -314,7 +320,8 @@ def run_agent_shutdown(params, known):
                 while done < k:
                     for (j, name) in enumerate(live):
                         if w.step(name):
-                            live = live[j + 1:] + live[:j + 1]
+                            if rotate:
+                                live = live[j + 1:] + live[:j + 1]
                             done += 1
                             break
                     else:
@@ -324,12 +331,12 @@ def run_agent_shutdown(params, known):
                 stops_at_call = w.stops
                 w.collect(('user',))
                 try:
-                    w.run_policy(live)
+                    w.run_policy(live, rotate=rotate)
                 except Exception as err:
                     viol('run-does-not-end', dict(), str(err), case)
                     break
                 count += 1
-                keys.add('%s/%s/%s/%d/%s' % ('+'.join(contacts), '+'.join(load), ''.join(order), k, early))
+                keys.add('%s/%s/%s%s/%d/%s' % ('+'.join(contacts), '+'.join(load), ''.join(order), '' if rotate else '!', k, early))
                 sig = w.sig
                 # the watch of a listening socket that was closed earlier in the same loop iteration still fires
                 # once (accept() then fails with EBADF and the watch goes away): no contact is concerned
